@@ -268,19 +268,19 @@ Section IterFacts.
       (check = false \/ it_end it = E) ->
       exists it', next_impl B T fuel check t it = Ok (Some x, it') /\
                   StOK E it' /\ pending t E it' = rest /\
-                  it_items it' = it_items it /\ it_end it' = it_end it.
+                  it_items it' = it_items it /\ it_end it' = it_end it /\ it_next it <= it_next it'.
   Proof.
     intros HS.
     assert (Hcons : forall fuel it x rest b r,
       it_cur it = b :: r -> StOK E it -> pending t E it = x :: rest ->
       exists it', next_impl B T fuel check t it = Ok (Some x, it') /\
                   StOK E it' /\ pending t E it' = rest /\
-                  it_items it' = it_items it /\ it_end it' = it_end it).
+                  it_items it' = it_items it /\ it_end it' = it_end it /\ it_next it <= it_next it').
     { intros fuel it x rest b r Hc Hst Hp.
       rewrite next_impl_eq, Hc.
       unfold pending in Hp. rewrite Hc in Hp. cbn [map app] in Hp. injection Hp as Hx Hr.
       eexists. split; [rewrite Hx; reflexivity|].
-      split; [exact Hst|]. split; [|split; reflexivity].
+      split; [exact Hst|]. split; [|split; [|split]; reflexivity].
       unfold pending. cbn [it_cur it_first it_next]. exact Hr. }
     induction fuel as [|fuel IH]; intros it x rest Hst Hp Hf Hck;
       destruct (it_cur it) as [|b r] eqn:Hc;
@@ -299,11 +299,13 @@ Section IterFacts.
         rewrite Hend. destruct (Nat.leb_spec E (it_next it)); [lia|]. apply andb_false_r. }
       rewrite Hchk, Hload. cbn [bind].
       destruct (Hadv (it_end it) (it_items it)) as (Hst' & Hp').
-      edestruct (IH _ x rest Hst') as (it' & Hn & Hst'' & Hp'' & Hi & He).
+      edestruct (IH _ x rest Hst') as (it' & Hn & Hst'' & Hp'' & Hi & He & Hmono).
       + rewrite Hp', <- (pending_cur_nil t E it Hc). exact Hp.
       + cbn [it_next]. simpl in Hf. lia.
       + cbn [it_end]. exact Hck.
-      + exists it'. cbn [it_items it_end] in Hi, He. auto.
+      + exists it'. cbn [it_items it_end it_next] in Hi, He, Hmono.
+        split; [exact Hn|]. split; [exact Hst''|]. split; [exact Hp''|].
+        split; [exact Hi|]. split; [exact He|]. lia.
   Qed.
 
   (* ---- with the pointer-range check on, an exhausted range answers None ---- *)
@@ -358,27 +360,27 @@ Section IterFacts.
   Qed.
 
   (* ---- I6: the range collector ---- *)
-  Lemma range_collect_spec (t : table T) E fuel : Scan t E -> E <= fuel * GW + GW ->
+  Lemma range_collect_spec (t : table T) E fuel : Scan t E ->
     forall calls it,
-      StOK E it -> it_end it = E -> length (pending t E it) < calls ->
+      StOK E it -> it_end it = E -> E - it_next it <= fuel * GW ->
+      length (pending t E it) < calls ->
       exists it_end', range_collect B T calls fuel t it = Ok (pending t E it, it_end') /\
                       it_items it_end' = it_items it /\
                       forall fuel', next_impl B T fuel' true t it_end' = Ok (None, it_end').
   Proof.
-    intros HS HF.
-    induction calls as [|calls IH]; intros it Hst Hend Hlen; [lia|].
-    assert (Hfu : E - it_next it <= fuel * GW).
-    { destruct Hst as (Hn & _ & _). lia. }
+    intros HS.
+    induction calls as [|calls IH]; intros it Hst Hend Hfu Hlen; [lia|].
     cbn [range_collect].
     destruct (pending t E it) as [|x rest] eqn:Hp.
     - destruct (next_impl_none t E HS fuel it Hst Hp Hfu Hend) as (it' & Hn & Hc' & Hle' & Hi).
       rewrite Hn. cbn [bind]. exists it'. split; [reflexivity|]. split; [exact Hi|].
       intros fuel'. apply next_impl_none_stable; assumption.
     - destruct (next_impl_some t E true HS fuel it x rest Hst Hp Hfu (or_intror Hend))
-        as (it' & Hn & Hst' & Hp' & Hi & He).
+        as (it' & Hn & Hst' & Hp' & Hi & He & Hmono).
       rewrite Hn. cbn [bind].
       destruct (IH it' Hst') as (ite & Hr & Hie & Hstable).
       + rewrite He. exact Hend.
+      + lia.
       + rewrite Hp'. simpl in Hlen. lia.
       + rewrite Hr, Hp'. cbn [bind]. exists ite. split; [reflexivity|]. split; [congruence | exact Hstable].
   Qed.
@@ -410,7 +412,7 @@ Section IterFacts.
     { rewrite Hi. apply Z.eqb_neq. unfold zn. simpl length. lia. }
     rewrite Hnz.
     destruct (next_impl_some t E false HS (iter_fuel B T t) it x rest Hst Hp) as
-      (it' & Hn & Hst' & Hp' & Hi' & _); [lia | left; reflexivity |].
+      (it' & Hn & Hst' & Hp' & Hi' & _ & _); [lia | left; reflexivity |].
     rewrite Hn. cbn [bind].
     eexists. split; [reflexivity|].
     unfold IterInv, StOK, pending. cbn [it_cur it_first it_next it_items].
@@ -505,4 +507,293 @@ Section IterFacts.
     - exact Hb.
     - destruct Hst as (Hn & _ & _). lia.
   Qed.
+
+  (* ---------------------------------------------------------------------------------------- *)
+  (* what SafeWF provides                                                                      *)
+  (* ---------------------------------------------------------------------------------------- *)
+  (* the control index up to which the iterator scans: all buckets, or one whole group for a
+     table smaller than a group *)
+  Definition iter_bound (t : table T) : nat := if GW <=? nb T t then nb T t else GW.
+
+  Lemma pow2_div8 k : 8 <= 2 ^ k -> exists q, 2 ^ k = 8 * q.
+  Proof.
+    intros H. destruct k as [|[|[|k]]]; try (simpl in H; lia).
+    exists (2 ^ k). rewrite !Nat.pow_succ_r'. lia.
+  Qed.
+
+  Lemma pow2_div16 k : 16 <= 2 ^ k -> exists q, 2 ^ k = 16 * q.
+  Proof.
+    intros H. destruct k as [|[|[|[|k]]]]; try (simpl in H; lia).
+    exists (2 ^ k). rewrite !Nat.pow_succ_r'. lia.
+  Qed.
+
+  Lemma valid_repeat_EMPTY n : Forall valid_ctrl (repeat EMPTY n).
+  Proof.
+    apply Forall_forall. intros x Hx. apply repeat_spec in Hx. subst x. right. right. reflexivity.
+  Qed.
+
+  Lemma nth_repeat_lt (a d : Z) n i : i < n -> nth i (repeat a n) d = a.
+  Proof.
+    intros H. apply (repeat_spec n a). apply nth_In. rewrite repeat_length. exact H.
+  Qed.
+
+  Lemma pow2_bound k : k <= 62 -> (zn (2 ^ k) <= 2 ^ 62)%Z.
+  Proof.
+    intros H. unfold zn. rewrite Nat2Z.inj_pow. apply Z.pow_le_mono_r; lia.
+  Qed.
+
+  Record Geo (t : table T) : Prop := {
+    geo_scan : Scan t (iter_bound t);
+    geo_fuel : iter_bound t <= iter_fuel B T t * GW;
+    geo_list : fl t 0 (iter_bound t) = full_list t;
+    geo_len : nb T t <= length (ctrl t);
+    geo_items : items t = zn (count_p is_full (real_ctrl T t));
+    geo_nb : (zn (nb T t) <= 2 ^ 62)%Z
+  }.
+
+  Lemma fl_padding (t : table T) :
+    (forall i, nb T t <= i < GW -> byte T t i = EMPTY) -> nb T t < GW ->
+    fl t 0 GW = full_list t.
+  Proof.
+    intros Hpad Hlt. replace GW with (nb T t + (GW - nb T t)) at 1 by lia.
+    rewrite fl_app. cbn [Nat.add]. rewrite <- full_list_fl.
+    unfold fl at 1. rewrite filter_all_false; [apply app_nil_r|].
+    intros x Hx. apply in_seq in Hx. rewrite Hpad by lia. apply is_full_EMPTY.
+  Qed.
+
+  Lemma fuel_bound n : n <= S (n / GW) * GW.
+  Proof.
+    pose proof GW_pos as HG.
+    pose proof (Nat.div_mod n GW ltac:(lia)) as H1.
+    pose proof (Nat.mod_upper_bound n GW ltac:(lia)) as H2.
+    simpl. lia.
+  Qed.
+
+  Lemma safe_geo (t : table T) : SafeWF B T t -> Geo t.
+  Proof.
+    pose proof GW_pos as HG.
+    unfold SafeWF. cbv zeta. destruct (mask t =? 0) eqn:Hm; intros H.
+    - (* the static empty singleton *)
+      subst t.
+      assert (Hnb : nb T (new_table B T) = 1) by reflexivity.
+      assert (Hc : ctrl (new_table B T) = repeat EMPTY GW) by reflexivity.
+      assert (Hlt : 1 < GW) by (destruct HW as [H|H]; rewrite H; lia).
+      assert (Hb : iter_bound (new_table B T) = GW).
+      { unfold iter_bound. rewrite Hnb. destruct (Nat.leb_spec GW 1); [lia | reflexivity]. }
+      split.
+      + rewrite Hb. split; [|split].
+        * rewrite Hc. apply valid_repeat_EMPTY.
+        * rewrite Hc, repeat_length. lia.
+        * exists 1. lia.
+      + rewrite Hb. unfold iter_fuel. simpl. lia.
+      + rewrite Hb. apply fl_padding; [|lia].
+        intros i Hi. unfold byte. rewrite Hc. apply nth_repeat_lt. lia.
+      + rewrite Hc, repeat_length, Hnb. lia.
+      + unfold real_ctrl, count_p, new_table, buckets. cbn [mask ctrl items].
+        destruct HW as [H|H]; rewrite H; reflexivity.
+      + rewrite Hnb. apply Z.leb_le. reflexivity.
+    - (* an allocated table *)
+      destruct H as (((k & Hk & Hpow) & Hlen & Hsl & Hv) & Hmir & (Hit & _)).
+      unfold Mirror in Hmir. cbv zeta in Hmir.
+      split.
+      + split; [exact Hv|]. unfold iter_bound.
+        destruct (Nat.leb_spec GW (nb T t)) as [Hge|Hlt].
+        * split; [lia|]. rewrite Hpow in *.
+          destruct HW as [H|H]; rewrite H in *; [apply pow2_div8 | apply pow2_div16]; exact Hge.
+        * split; [lia|]. exists 1. lia.
+      + unfold iter_bound, iter_fuel. fold (nb T t).
+        destruct (Nat.leb_spec GW (nb T t)) as [Hge|Hlt].
+        * apply fuel_bound.
+        * simpl. lia.
+      + unfold iter_bound.
+        destruct (Nat.leb_spec GW (nb T t)) as [Hge|Hlt].
+        * reflexivity.
+        * destruct Hmir as [Hpad _]. apply fl_padding; assumption.
+      + lia.
+      + exact Hit.
+      + rewrite Hpow. apply pow2_bound. lia.
+  Qed.
+
+  (* ---------------------------------------------------------------------------------------- *)
+  (* I1                                                                                         *)
+  (* ---------------------------------------------------------------------------------------- *)
+  Theorem full_list_count (t : table T) : SafeWF B T t ->
+    length (full_list t) = count_p is_full (real_ctrl T t).
+  Proof.
+    intros H. destruct (safe_geo t H) as [_ _ _ Hlen _ _].
+    unfold count_p, real_ctrl. fold (nb T t).
+    pose proof (filter_nth_firstn is_full (ctrl t) POISON (nb T t) 0) as Hf.
+    cbn [skipn] in Hf. rewrite Hf by lia. rewrite map_length. reflexivity.
+  Qed.
+
+  Theorem items_full_list (t : table T) : SafeWF B T t ->
+    items t = Z.of_nat (length (full_list t)).
+  Proof.
+    intros H. rewrite (full_list_count t H). destruct (safe_geo t H) as [_ _ _ _ Hi _]. exact Hi.
+  Qed.
+
+  Lemma full_list_le (t : table T) : length (full_list t) <= nb T t.
+  Proof.
+    unfold full_list. etransitivity; [apply filter_length_le'|]. rewrite seq_length. lia.
+  Qed.
+
+  Corollary items_singleton : items (new_table B T) = 0%Z /\ full_list (new_table B T) = [].
+  Proof.
+    split; [reflexivity|].
+    assert (H : SafeWF B T (new_table B T)) by reflexivity.
+    pose proof (items_full_list _ H) as Hi. change (items (new_table B T)) with 0%Z in Hi.
+    destruct (full_list (new_table B T)); [reflexivity | simpl in Hi; lia].
+  Qed.
+
+  (* ---------------------------------------------------------------------------------------- *)
+  (* I2, I5                                                                                     *)
+  (* ---------------------------------------------------------------------------------------- *)
+  Lemma iter_new_inv (t : table T) : SafeWF B T t ->
+    exists it, iter_new B T t = Ok it /\ IterInv t (iter_bound t) it (full_list t).
+  Proof.
+    intros H. pose proof GW_pos as HG.
+    destruct (safe_geo t H) as [HS HF HL Hlen Hi Hnb].
+    assert (Hpos : 0 < iter_bound t).
+    { unfold iter_bound. destruct (Nat.leb_spec GW (nb T t)); lia. }
+    destruct (range_new_spec t (iter_bound t) 0 (buckets T t) (items t) HS) as
+      (it & Hr & Hst & Hp & _ & Hit); [exists 0; lia | exact Hpos |].
+    exists it. split; [exact Hr|].
+    rewrite Nat.sub_0_r, HL in Hp.
+    split; [exact Hst|]. split; [exact Hp|].
+    rewrite Hit. pose proof (items_full_list t H) as Hi'. pose proof (full_list_le t) as Hle.
+    split; [exact Hi'|]. rewrite Hi'. rewrite two_p_64'.
+    assert ((2 ^ 62 = 4611686018427387904)%Z) as H62 by reflexivity.
+    unfold zn in *. lia.
+  Qed.
+
+  Theorem iter_exact (t : table T) : SafeWF B T t ->
+    exists it, iter_new B T t = Ok it /\ iter_all B T t it = Ok (full_list t).
+  Proof.
+    intros H. destruct (iter_new_inv t H) as (it & Hn & HI).
+    destruct (safe_geo t H) as [HS HF _ _ _ _].
+    exists it. split; [exact Hn|].
+    unfold iter_all. apply (iter_collect_spec t (iter_bound t) HS HF _ it _ HI).
+    pose proof (full_list_le t). unfold nb in *. lia.
+  Qed.
+
+  Theorem full_buckets_indices_exact (t : table T) : SafeWF B T t ->
+    full_buckets_indices B T t = Ok (full_list t).
+  Proof.
+    intros H. destruct (iter_exact t H) as (it & Hn & Ha).
+    unfold full_buckets_indices. rewrite Hn. cbn [bind]. exact Ha.
+  Qed.
+
+  (* ---------------------------------------------------------------------------------------- *)
+  (* I3, I4                                                                                     *)
+  (* ---------------------------------------------------------------------------------------- *)
+  (* all in one: the state after n calls of next (any n) *)
+  Theorem iter_steps_exact (t : table T) it0 : SafeWF B T t -> iter_new B T t = Ok it0 ->
+    forall n, exists it_n,
+      iter_steps B T n t it0 = Ok (firstn n (full_list t), it_n) /\
+      it_items it_n = Z.of_nat (length (full_list t) - n) /\
+      iter_fold B T t it_n = Ok (skipn n (full_list t)) /\
+      (length (full_list t) <= n -> iter_next B T t it_n = Ok (None, it_n)).
+  Proof.
+    intros H Hn n. destruct (iter_new_inv t H) as (it & Hn' & HI).
+    rewrite Hn in Hn'. injection Hn' as <-.
+    destruct (safe_geo t H) as [HS HF _ _ _ _].
+    destruct (iter_steps_spec t (iter_bound t) HS HF n it0 _ HI) as (it_n & Hs & HIn).
+    exists it_n. split; [exact Hs|]. split; [|split].
+    - destruct HIn as (_ & _ & Hi & _). rewrite Hi, skipn_length. reflexivity.
+    - apply (iter_fold_spec t (iter_bound t) it_n _ HS HF HIn).
+    - intros Hle. rewrite skipn_all2 in HIn by exact Hle.
+      apply (iter_next_none t (iter_bound t) it_n HIn).
+  Qed.
+
+  (* I3 as stated: prefixes, and the reported length *)
+  Theorem iter_steps_prefix (t : table T) : SafeWF B T t ->
+    exists it0, iter_new B T t = Ok it0 /\
+      forall n, n <= length (full_list t) ->
+        exists it_n, iter_steps B T n t it0 = Ok (firstn n (full_list t), it_n) /\
+                     it_items it_n = Z.of_nat (length (full_list t) - n).
+  Proof.
+    intros H. destruct (iter_new_inv t H) as (it0 & Hn & _).
+    exists it0. split; [exact Hn|]. intros n _.
+    destruct (iter_steps_exact t it0 H Hn n) as (it_n & Hs & Hi & _).
+    exists it_n. auto.
+  Qed.
+
+  (* after exhaustion: whatever number n >= len of calls was made, everything was yielded, the
+     count is 0, and next keeps answering None without changing the state *)
+  Theorem iter_exhausted (t : table T) it0 n l it_n : SafeWF B T t -> iter_new B T t = Ok it0 ->
+    length (full_list t) <= n -> iter_steps B T n t it0 = Ok (l, it_n) ->
+    l = full_list t /\ it_items it_n = 0%Z /\
+    iter_next B T t it_n = Ok (None, it_n) /\
+    forall m, iter_steps B T m t it_n = Ok ([], it_n).
+  Proof.
+    intros H Hn Hle Hs.
+    destruct (iter_steps_exact t it0 H Hn n) as (it' & Hs' & Hi & _ & Hnone).
+    rewrite Hs in Hs'. injection Hs' as -> <-.
+    split; [apply firstn_all2; exact Hle|].
+    split; [rewrite Hi; replace (length (full_list t) - n) with 0 by lia; reflexivity|].
+    specialize (Hnone Hle). split; [exact Hnone|].
+    intros m. destruct m as [|m]; [reflexivity|]. cbn [iter_steps]. rewrite Hnone. reflexivity.
+  Qed.
+
+  (* I4 as stated: fold from the state reached by n calls of next visits exactly the rest *)
+  Theorem iter_fold_after_steps (t : table T) it0 n l it_n : SafeWF B T t ->
+    iter_new B T t = Ok it0 -> iter_steps B T n t it0 = Ok (l, it_n) ->
+    l = firstn n (full_list t) /\ iter_fold B T t it_n = Ok (skipn n (full_list t)).
+  Proof.
+    intros H Hn Hs.
+    destruct (iter_steps_exact t it0 H Hn n) as (it' & Hs' & _ & Hf & _).
+    rewrite Hs in Hs'. injection Hs' as -> <-. split; [reflexivity | exact Hf].
+  Qed.
+
+  Corollary iter_fold_exact (t : table T) it0 : SafeWF B T t -> iter_new B T t = Ok it0 ->
+    iter_fold B T t it0 = Ok (full_list t).
+  Proof.
+    intros H Hn. apply (iter_fold_after_steps t it0 0 [] it0 H Hn). reflexivity.
+  Qed.
+
+  (* ---------------------------------------------------------------------------------------- *)
+  (* I6                                                                                         *)
+  (* ---------------------------------------------------------------------------------------- *)
+  Theorem range_exact (t : table T) a len n_items calls fuel : SafeWF B T t ->
+    GW <= nb T t -> Nat.divide GW a -> Nat.divide GW len -> 0 < len -> a + len <= nb T t ->
+    len < calls -> len <= fuel * GW + GW ->
+    exists it it_end,
+      range_new B T t a len n_items = Ok it /\
+      range_collect B T calls fuel t it
+        = Ok (filter (fun i => is_full (byte T t i)) (seq a len), it_end) /\
+      it_items it_end = n_items /\
+      forall fuel', next_impl B T fuel' true t it_end = Ok (None, it_end).
+  Proof.
+    intros H Hge (qa & Ha) (ql & Hl) Hpos Hfit Hcalls Hfuel.
+    destruct (safe_geo t H) as [(Hv & _ & _) _ _ Hlen _ _].
+    assert (HS : Scan t (a + len)).
+    { split; [exact Hv|]. split; [lia|]. exists (qa + ql). lia. }
+    destruct (range_new_spec t (a + len) a len n_items HS) as
+      (it & Hr & Hst & Hp & Hend & Hit); [exists qa; lia | lia |].
+    replace (a + len - a) with len in Hp by lia.
+    destruct (range_collect_spec t (a + len) fuel HS calls it Hst Hend) as
+      (ite & Hc & Hi & Hstable).
+    - destruct Hst as (Hnx & _ & _).
+      assert (it_first it = a).
+      { unfold range_new in Hr. destruct (load_aligned B T t a); [|discriminate].
+        injection Hr as <-. reflexivity. }
+      lia.
+    - rewrite Hp. unfold fl.
+      pose proof (filter_length_le' (fun i => is_full (byte T t i)) (seq a len)) as Hfl.
+      rewrite seq_length in Hfl. lia.
+    - exists it, ite. split; [exact Hr|]. split; [|split].
+      + rewrite Hc, Hp. reflexivity.
+      + congruence.
+      + exact Hstable.
+  Qed.
 End IterFacts.
+
+Print Assumptions full_list_count.
+Print Assumptions items_full_list.
+Print Assumptions iter_exact.
+Print Assumptions full_buckets_indices_exact.
+Print Assumptions iter_steps_exact.
+Print Assumptions iter_steps_prefix.
+Print Assumptions iter_exhausted.
+Print Assumptions iter_fold_after_steps.
+Print Assumptions range_exact.
